@@ -100,6 +100,7 @@ def normalise(t, depth=0):
 
 
 SIDE_TIMEOUT_MS = 700
+FALLBACK_MS = 250
 SIDE_RLIMIT = 40_000_000
 _HEAVY = ("SumOver_", "sqrt", "(/ ", "(* ")
 
@@ -126,7 +127,7 @@ def _light(s):
     return ls
 
 
-def _unsat(s, *facts):
+def _unsat(s, *facts, cap=None):
     import os
     import time
 
@@ -146,7 +147,7 @@ def _unsat(s, *facts):
     try:
         # side conditions of the normaliser are linear / UF facts: when one needs more than a moment the query has drifted
         # into non-linear arithmetic, where z3 may run (far) past its timeout; cap it — 'unknown' only means "not proved this way"
-        s.set("timeout", SIDE_TIMEOUT_MS)
+        s.set("timeout", cap or SIDE_TIMEOUT_MS)
         s.set("rlimit", SIDE_RLIMIT)
         s.add(*facts)
         r = s.check()
@@ -427,7 +428,7 @@ def cancels(s, facts, m1, m2) -> bool:
         s.pop()
         if ok:
             return True
-    return _unsat(s, *facts, m1 + m2 != 0)
+    return _unsat(s, *facts, m1 + m2 != 0, cap=FALLBACK_MS)  # (a non-linear identity asked of the solver directly: rarely decides anything)
 
 
 def prove_equal(s: z3.Solver, lhs, rhs) -> bool:
@@ -447,7 +448,7 @@ def prove_equal(s: z3.Solver, lhs, rhs) -> bool:
     # drop summands that are identically zero
     live = []
     for bound, body in summands:
-        if _unsat(s, *_range_facts(bound), body != 0):
+        if _unsat(s, *_range_facts(bound), body != 0, cap=FALLBACK_MS):
             continue
         live.append((bound, body))
     plain = [body for bound, body in live if not bound]
